@@ -52,7 +52,7 @@ structure Inv (s : St) : Prop where
     (fl.key, f) ∈ s.active ∧ s.pcs[fl.leader]? = some (Pc.leading f)
   leadingRunning : ∀ (i f : Nat), s.pcs[i]? = some (Pc.leading f) →
     ∃ fl : Flight, s.flights[f]? = some fl ∧ fl.leader = i ∧ fl.result = none
-  callsLen : s.calls.length = s.flights.length
+  callsLen : s.calls.length = s.activated ∧ s.activated ≤ s.flights.length
   outsDone : ∀ (i : Nat) (o : Outcome), (i, o) ∈ s.outs → s.pcs[i]? = some Pc.done
   doneOuts : ∀ (i : Nat), s.pcs[i]? = some Pc.done → ∃ o : Outcome, (i, o) ∈ s.outs
   outsNodup : (s.outs.map (·.1)).Nodup
@@ -202,6 +202,43 @@ theorem inv_step_wake (cfg : Cfg) (s : St) (i : Nat) (hi : Inv s) : Inv (step cf
     · exact hi
   · exact hi
 
+/-- a client that has not entered `sf.Do` yet moves between `init` and `missed` -/
+theorem inv_setPc_missed (s : St) (i : Nat) (hp : s.pcs[i]? = some Pc.init) (hi : Inv s) :
+    Inv (s.setPc i .missed) := by
+  obtain ⟨h1, h2, h3, h4, h5, h6, h7, h8, h9, h10, h11, h12, h13⟩ := hi
+  have hlt : i < s.pcs.length := by
+    rcases List.getElem?_eq_some_iff.mp hp with ⟨h, _⟩; exact h
+  refine ⟨h1, h2, h3, ?_, h5, h6, h7, ?_, ?_, h10, ?_, ?_, h13⟩
+  · intro j g hj
+    simp only [St.setPc] at hj ⊢
+    by_cases hne : i = j
+    · subst hne
+      rw [List.getElem?_set_self hlt] at hj
+      rcases hj with hj | hj <;> cases hj
+    · rw [List.getElem?_set_ne hne] at hj; exact h4 j g hj
+  · intro g gl hg hgr
+    obtain ⟨ha, hl⟩ := h8 g gl hg hgr
+    refine ⟨ha, ?_⟩
+    simp only [St.setPc]
+    have hne : i ≠ gl.leader := by
+      intro e; subst e; rw [hp] at hl; cases hl
+    rw [List.getElem?_set_ne hne]; exact hl
+  · intro j g hj
+    simp only [St.setPc] at hj ⊢
+    by_cases hne : i = j
+    · subst hne; rw [List.getElem?_set_self hlt] at hj; cases hj
+    · rw [List.getElem?_set_ne hne] at hj; exact h9 j g hj
+  · intro j o hj
+    simp only [St.setPc] at hj ⊢
+    have hne : i ≠ j := by
+      intro e; subst e; have := h11 _ o hj; rw [hp] at this; cases this
+    rw [List.getElem?_set_ne hne]; exact h11 j o hj
+  · intro j hj
+    simp only [St.setPc] at hj ⊢
+    by_cases hne : i = j
+    · subst hne; rw [List.getElem?_set_self hlt] at hj; cases hj
+    · rw [List.getElem?_set_ne hne] at hj; exact h12 j hj
+
 theorem inv_step_arrive (cfg : Cfg) (s : St) (i : Nat) (hi : Inv s) : Inv (step cfg s (.arrive i)) := by
   simp only [step]
   split
@@ -214,134 +251,212 @@ theorem inv_step_arrive (cfg : Cfg) (s : St) (i : Nat) (hi : Inv s) : Inv (step 
       · next e he =>
         exact inv_finish s i c _ .init hc hp (.inl rfl)
           (by intro r h; cases h; exact cachedReply_good s hi c e he) hi
-      · split
-        · next f hf =>
-          -- follower: joins the running flight
-          obtain ⟨h1, h2, h3, h4, h5, h6, h7, h8, h9, h10, h11, h12, h13⟩ := hi
-          have hlt : i < s.pcs.length := by
-            rcases List.getElem?_eq_some_iff.mp hp with ⟨h, _⟩; exact h
-          obtain ⟨fl, hfl, hk, hr⟩ := h6 _ _ (lookup_some hf)
-          refine ⟨h1, h2, h3, ?_, h5, h6, h7, ?_, ?_, h10, ?_, ?_, h13⟩
-          · intro j g hj
-            simp only [St.setPc] at hj ⊢
-            by_cases hne : i = j
-            · subst hne
-              rw [List.getElem?_set_self hlt] at hj
-              rcases hj with hj | hj
-              · cases hj; exact ⟨c, fl, hc, hfl, hk⟩
-              · cases hj
-            · rw [List.getElem?_set_ne hne] at hj; exact h4 j g hj
-          · intro g gl hg hgr
-            obtain ⟨ha, hl⟩ := h8 g gl hg hgr
+      · exact inv_setPc_missed s i hp hi
+  · exact hi
+
+theorem inv_step_join (cfg : Cfg) (s : St) (i : Nat) (hi : Inv s) : Inv (step cfg s (.join i)) := by
+  simp only [step]
+  split
+  · next c hc hp =>
+    split
+    · next f hf =>
+      -- follower: joins the running flight
+      obtain ⟨h1, h2, h3, h4, h5, h6, h7, h8, h9, h10, h11, h12, h13⟩ := hi
+      have hlt : i < s.pcs.length := by
+        rcases List.getElem?_eq_some_iff.mp hp with ⟨h, _⟩; exact h
+      obtain ⟨fl, hfl, hk, hr⟩ := h6 _ _ (lookup_some hf)
+      refine ⟨h1, h2, h3, ?_, h5, h6, h7, ?_, ?_, h10, ?_, ?_, h13⟩
+      · intro j g hj
+        simp only [St.setPc] at hj ⊢
+        by_cases hne : i = j
+        · subst hne
+          rw [List.getElem?_set_self hlt] at hj
+          rcases hj with hj | hj
+          · cases hj; exact ⟨c, fl, hc, hfl, hk⟩
+          · cases hj
+        · rw [List.getElem?_set_ne hne] at hj; exact h4 j g hj
+      · intro g gl hg hgr
+        obtain ⟨ha, hl⟩ := h8 g gl hg hgr
+        refine ⟨ha, ?_⟩
+        simp only [St.setPc]
+        have hne : i ≠ gl.leader := by
+          intro e; subst e; rw [hp] at hl; cases hl
+        rw [List.getElem?_set_ne hne]; exact hl
+      · intro j g hj
+        simp only [St.setPc] at hj ⊢
+        by_cases hne : i = j
+        · subst hne; rw [List.getElem?_set_self hlt] at hj; cases hj
+        · rw [List.getElem?_set_ne hne] at hj; exact h9 j g hj
+      · intro j o hj
+        simp only [St.setPc] at hj ⊢
+        have hne : i ≠ j := by
+          intro e; subst e; have := h11 _ o hj; rw [hp] at this; cases this
+        rw [List.getElem?_set_ne hne]; exact h11 j o hj
+      · intro j hj
+        simp only [St.setPc] at hj ⊢
+        by_cases hne : i = j
+        · subst hne; rw [List.getElem?_set_self hlt] at hj; cases hj
+        · rw [List.getElem?_set_ne hne] at hj; exact h12 j hj
+    · next hnone =>
+      split
+      · next e he =>
+        -- leader whose re-check hits the cache: the flight is born finished
+        have hcs := hi.cacheSound _ _ (lookup_some he)
+        obtain ⟨h1, h2, h3, h4, h5, h6, h7, h8, h9, h10, h11, h12, h13⟩ := hi
+        have hlt : i < s.pcs.length := by
+          rcases List.getElem?_eq_some_iff.mp hp with ⟨h, _⟩; exact h
+        refine ⟨h1, ?_, ?_, ?_, h5, ?_, h7, ?_, ?_, ?_, ?_, ?_, h13⟩
+        · intro g gl hg
+          simp only [St.setPc] at hg ⊢
+          rcases getElem?_snoc_some hg with hg | ⟨_, rfl⟩
+          · exact h2 g gl hg
+          · exact ⟨c, hc, rfl⟩
+        · intro g gl m hg hgr
+          simp only [St.setPc] at hg ⊢
+          rcases getElem?_snoc_some hg with hg | ⟨_, rfl⟩
+          · exact h3 g gl m hg hgr
+          · simp only [Option.some.injEq, DRes.ok.injEq] at hgr
+            subst hgr
+            exact ⟨e.q, rfl, hcs.1, hcs.2⟩
+        · intro j g hj
+          simp only [St.setPc] at hj ⊢
+          by_cases hne : i = j
+          · subst hne
+            rw [List.getElem?_set_self hlt] at hj
+            rcases hj with hj | hj
+            · cases hj
+              exact ⟨c, _, hc, List.getElem?_concat_length, rfl⟩
+            · cases hj
+          · rw [List.getElem?_set_ne hne] at hj
+            obtain ⟨c', fl', hc', hf', hk'⟩ := h4 j g hj
+            refine ⟨c', fl', hc', ?_, hk'⟩
+            have hglt : g < s.flights.length := by
+              rcases List.getElem?_eq_some_iff.mp hf' with ⟨h, _⟩; exact h
+            rw [List.getElem?_append_left hglt]; exact hf'
+        · intro k g hkg
+          simp only [St.setPc] at hkg ⊢
+          obtain ⟨fl, hfl, hk, hr⟩ := h6 k g hkg
+          have hglt : g < s.flights.length := by
+            rcases List.getElem?_eq_some_iff.mp hfl with ⟨h, _⟩; exact h
+          exact ⟨fl, by rw [List.getElem?_append_left hglt]; exact hfl, hk, hr⟩
+        · intro g gl hg hgr
+          simp only [St.setPc] at hg ⊢
+          rcases getElem?_snoc_some hg with hg | ⟨rfl, rfl⟩
+          · obtain ⟨ha, hl⟩ := h8 g gl hg hgr
             refine ⟨ha, ?_⟩
-            simp only [St.setPc]
             have hne : i ≠ gl.leader := by
               intro e; subst e; rw [hp] at hl; cases hl
             rw [List.getElem?_set_ne hne]; exact hl
-          · intro j g hj
-            simp only [St.setPc] at hj ⊢
-            by_cases hne : i = j
-            · subst hne; rw [List.getElem?_set_self hlt] at hj; cases hj
-            · rw [List.getElem?_set_ne hne] at hj; exact h9 j g hj
-          · intro j o hj
-            simp only [St.setPc] at hj ⊢
-            have hne : i ≠ j := by
-              intro e; subst e; have := h11 _ o hj; rw [hp] at this; cases this
-            rw [List.getElem?_set_ne hne]; exact h11 j o hj
-          · intro j hj
-            simp only [St.setPc] at hj ⊢
-            by_cases hne : i = j
-            · subst hne; rw [List.getElem?_set_self hlt] at hj; cases hj
-            · rw [List.getElem?_set_ne hne] at hj; exact h12 j hj
-        · next hnone =>
-          -- leader: creates a flight
-          obtain ⟨h1, h2, h3, h4, h5, h6, h7, h8, h9, h10, h11, h12, h13⟩ := hi
-          have hlt : i < s.pcs.length := by
-            rcases List.getElem?_eq_some_iff.mp hp with ⟨h, _⟩; exact h
-          have hnoact := lookup_none hnone
-          refine ⟨h1, ?_, ?_, ?_, h5, ?_, ?_, ?_, ?_, ?_, ?_, ?_, h13⟩
-          · intro g gl hg
-            simp only [St.setPc] at hg ⊢
-            rcases getElem?_snoc_some hg with hg | ⟨_, rfl⟩
-            · exact h2 g gl hg
-            · exact ⟨c, hc, rfl⟩
-          · intro g gl m hg hgr
-            simp only [St.setPc] at hg ⊢
-            rcases getElem?_snoc_some hg with hg | ⟨_, rfl⟩
-            · exact h3 g gl m hg hgr
-            · cases hgr
-          · intro j g hj
-            simp only [St.setPc] at hj ⊢
-            by_cases hne : i = j
-            · subst hne
-              rw [List.getElem?_set_self hlt] at hj
-              rcases hj with hj | hj
-              · cases hj
-              · cases hj
-                exact ⟨c, _, hc, List.getElem?_concat_length, rfl⟩
-            · rw [List.getElem?_set_ne hne] at hj
-              obtain ⟨c', fl', hc', hf', hk'⟩ := h4 j g hj
-              refine ⟨c', fl', hc', ?_, hk'⟩
-              have hglt : g < s.flights.length := by
-                rcases List.getElem?_eq_some_iff.mp hf' with ⟨h, _⟩; exact h
-              rw [List.getElem?_append_left hglt]; exact hf'
-          · intro k g hkg
-            simp only [St.setPc] at hkg ⊢
-            rcases mem_insert hkg with hkg | ⟨hkg, _⟩
-            · cases hkg
-              exact ⟨_, List.getElem?_concat_length, rfl, rfl⟩
-            · obtain ⟨fl, hfl, hk, hr⟩ := h6 k g hkg
-              have hglt : g < s.flights.length := by
-                rcases List.getElem?_eq_some_iff.mp hfl with ⟨h, _⟩; exact h
-              exact ⟨fl, by rw [List.getElem?_append_left hglt]; exact hfl, hk, hr⟩
-          · intro k g g' hg hg'
-            simp only [St.setPc] at hg hg'
-            rcases mem_insert hg with hg | ⟨hg, hgk⟩ <;> rcases mem_insert hg' with hg' | ⟨hg', hgk'⟩
-            · cases hg; cases hg'; rfl
-            · cases hg; exact absurd rfl hgk'
-            · cases hg'; exact absurd rfl hgk
-            · exact h7 k g g' hg hg'
-          · intro g gl hg hgr
-            simp only [St.setPc] at hg ⊢
-            rcases getElem?_snoc_some hg with hg | ⟨rfl, rfl⟩
-            · obtain ⟨ha, hl⟩ := h8 g gl hg hgr
-              refine ⟨?_, ?_⟩
-              · simp only [insert, List.mem_cons]
-                right
-                simp only [erase, List.mem_filter, Bool.not_eq_eq_eq_not, Bool.not_true, beq_eq_false_iff_ne, ne_eq]
-                refine ⟨ha, ?_⟩
-                intro e
-                exact hnoact g (e ▸ ha)
-              · have hne : i ≠ gl.leader := by
-                  intro e; subst e; rw [hp] at hl; cases hl
-                rw [List.getElem?_set_ne hne]; exact hl
-            · refine ⟨?_, ?_⟩
-              · simp [insert]
-              · exact List.getElem?_set_self hlt
-          · intro j g hj
-            simp only [St.setPc] at hj ⊢
-            by_cases hne : i = j
-            · subst hne
-              rw [List.getElem?_set_self hlt] at hj
-              cases hj
-              exact ⟨_, List.getElem?_concat_length, rfl, rfl⟩
-            · rw [List.getElem?_set_ne hne] at hj
-              obtain ⟨fl, hfl, hl, hr⟩ := h9 j g hj
-              have hglt : g < s.flights.length := by
-                rcases List.getElem?_eq_some_iff.mp hfl with ⟨h, _⟩; exact h
-              exact ⟨fl, by rw [List.getElem?_append_left hglt]; exact hfl, hl, hr⟩
-          · simp only [St.setPc, List.length_append, List.length_cons, List.length_nil]
-            omega
-          · intro j o hj
-            simp only [St.setPc] at hj ⊢
-            have hne : i ≠ j := by
-              intro e; subst e; have := h11 _ o hj; rw [hp] at this; cases this
-            rw [List.getElem?_set_ne hne]; exact h11 j o hj
-          · intro j hj
-            simp only [St.setPc] at hj ⊢
-            by_cases hne : i = j
-            · subst hne; rw [List.getElem?_set_self hlt] at hj; cases hj
-            · rw [List.getElem?_set_ne hne] at hj; exact h12 j hj
+          · cases hgr
+        · intro j g hj
+          simp only [St.setPc] at hj ⊢
+          by_cases hne : i = j
+          · subst hne; rw [List.getElem?_set_self hlt] at hj; cases hj
+          · rw [List.getElem?_set_ne hne] at hj
+            obtain ⟨fl, hfl, hl, hr⟩ := h9 j g hj
+            have hglt : g < s.flights.length := by
+              rcases List.getElem?_eq_some_iff.mp hfl with ⟨h, _⟩; exact h
+            exact ⟨fl, by rw [List.getElem?_append_left hglt]; exact hfl, hl, hr⟩
+        · simp only [St.setPc, List.length_append, List.length_cons, List.length_nil]
+          exact ⟨h10.1, by have := h10.2; omega⟩
+        · intro j o hj
+          simp only [St.setPc] at hj ⊢
+          have hne : i ≠ j := by
+            intro e; subst e; have := h11 _ o hj; rw [hp] at this; cases this
+          rw [List.getElem?_set_ne hne]; exact h11 j o hj
+        · intro j hj
+          simp only [St.setPc] at hj ⊢
+          by_cases hne : i = j
+          · subst hne; rw [List.getElem?_set_self hlt] at hj; cases hj
+          · rw [List.getElem?_set_ne hne] at hj; exact h12 j hj
+      · next hcmiss =>
+        obtain ⟨h1, h2, h3, h4, h5, h6, h7, h8, h9, h10, h11, h12, h13⟩ := hi
+        have hlt : i < s.pcs.length := by
+          rcases List.getElem?_eq_some_iff.mp hp with ⟨h, _⟩; exact h
+        have hnoact := lookup_none hnone
+        refine ⟨h1, ?_, ?_, ?_, h5, ?_, ?_, ?_, ?_, ?_, ?_, ?_, h13⟩
+        · intro g gl hg
+          simp only [St.setPc] at hg ⊢
+          rcases getElem?_snoc_some hg with hg | ⟨_, rfl⟩
+          · exact h2 g gl hg
+          · exact ⟨c, hc, rfl⟩
+        · intro g gl m hg hgr
+          simp only [St.setPc] at hg ⊢
+          rcases getElem?_snoc_some hg with hg | ⟨_, rfl⟩
+          · exact h3 g gl m hg hgr
+          · cases hgr
+        · intro j g hj
+          simp only [St.setPc] at hj ⊢
+          by_cases hne : i = j
+          · subst hne
+            rw [List.getElem?_set_self hlt] at hj
+            rcases hj with hj | hj
+            · cases hj
+            · cases hj
+              exact ⟨c, _, hc, List.getElem?_concat_length, rfl⟩
+          · rw [List.getElem?_set_ne hne] at hj
+            obtain ⟨c', fl', hc', hf', hk'⟩ := h4 j g hj
+            refine ⟨c', fl', hc', ?_, hk'⟩
+            have hglt : g < s.flights.length := by
+              rcases List.getElem?_eq_some_iff.mp hf' with ⟨h, _⟩; exact h
+            rw [List.getElem?_append_left hglt]; exact hf'
+        · intro k g hkg
+          simp only [St.setPc] at hkg ⊢
+          rcases mem_insert hkg with hkg | ⟨hkg, _⟩
+          · cases hkg
+            exact ⟨_, List.getElem?_concat_length, rfl, rfl⟩
+          · obtain ⟨fl, hfl, hk, hr⟩ := h6 k g hkg
+            have hglt : g < s.flights.length := by
+              rcases List.getElem?_eq_some_iff.mp hfl with ⟨h, _⟩; exact h
+            exact ⟨fl, by rw [List.getElem?_append_left hglt]; exact hfl, hk, hr⟩
+        · intro k g g' hg hg'
+          simp only [St.setPc] at hg hg'
+          rcases mem_insert hg with hg | ⟨hg, hgk⟩ <;> rcases mem_insert hg' with hg' | ⟨hg', hgk'⟩
+          · cases hg; cases hg'; rfl
+          · cases hg; exact absurd rfl hgk'
+          · cases hg'; exact absurd rfl hgk
+          · exact h7 k g g' hg hg'
+        · intro g gl hg hgr
+          simp only [St.setPc] at hg ⊢
+          rcases getElem?_snoc_some hg with hg | ⟨rfl, rfl⟩
+          · obtain ⟨ha, hl⟩ := h8 g gl hg hgr
+            refine ⟨?_, ?_⟩
+            · simp only [insert, List.mem_cons]
+              right
+              simp only [erase, List.mem_filter, Bool.not_eq_eq_eq_not, Bool.not_true, beq_eq_false_iff_ne, ne_eq]
+              refine ⟨ha, ?_⟩
+              intro e
+              exact hnoact g (e ▸ ha)
+            · have hne : i ≠ gl.leader := by
+                intro e; subst e; rw [hp] at hl; cases hl
+              rw [List.getElem?_set_ne hne]; exact hl
+          · refine ⟨?_, ?_⟩
+            · simp [insert]
+            · exact List.getElem?_set_self hlt
+        · intro j g hj
+          simp only [St.setPc] at hj ⊢
+          by_cases hne : i = j
+          · subst hne
+            rw [List.getElem?_set_self hlt] at hj
+            cases hj
+            exact ⟨_, List.getElem?_concat_length, rfl, rfl⟩
+          · rw [List.getElem?_set_ne hne] at hj
+            obtain ⟨fl, hfl, hl, hr⟩ := h9 j g hj
+            have hglt : g < s.flights.length := by
+              rcases List.getElem?_eq_some_iff.mp hfl with ⟨h, _⟩; exact h
+            exact ⟨fl, by rw [List.getElem?_append_left hglt]; exact hfl, hl, hr⟩
+        · simp only [St.setPc, List.length_append, List.length_cons, List.length_nil]
+          omega
+        · intro j o hj
+          simp only [St.setPc] at hj ⊢
+          have hne : i ≠ j := by
+            intro e; subst e; have := h11 _ o hj; rw [hp] at this; cases this
+          rw [List.getElem?_set_ne hne]; exact h11 j o hj
+        · intro j hj
+          simp only [St.setPc] at hj ⊢
+          by_cases hne : i = j
+          · subst hne; rw [List.getElem?_set_self hlt] at hj; cases hj
+          · rw [List.getElem?_set_ne hne] at hj; exact h12 j hj
   · exact hi
 
 theorem same_iff {a b : Question} : a.same b = true ↔ a.name = b.name ∧ a.qtype = b.qtype := by
@@ -501,14 +616,32 @@ theorem inv_step_resolve (cfg : Cfg) (hcfg : cfg.checkQuestion = true) (s : St) 
     · exact hi
   · exact hi
 
+theorem inv_step_refresh (cfg : Cfg) (hcfg : cfg.checkQuestion = true) (s : St) (i : Nat) (sch : Scheme)
+    (a1 a2 : Att) (hi : Inv s) : Inv (step cfg s (.refresh i sch a1 a2)) := by
+  simp only [step]
+  split
+  · next c hc =>
+    obtain ⟨_, hd2⟩ := dialSend_spec cfg hcfg c sch a1 a2 s.cache
+    obtain ⟨h1, h2, h3, h4, h5, h6, h7, h8, h9, h10, h11, h12, h13⟩ := hi
+    refine ⟨?_, h2, h3, h4, h5, h6, h7, h8, h9, h10, h11, h12, h13⟩
+    intro k e hm
+    rcases hd2 _ hm with hm | ⟨hk, hn, ht⟩
+    · exact h1 k e hm
+    · simp only at hk hn ht
+      subst hk
+      exact ⟨hn, ht⟩
+  · exact hi
+
 theorem inv_step (cfg : Cfg) (hcfg : cfg.checkQuestion = true) (s : St) (a : Act) (hi : Inv s) :
     Inv (step cfg s a) := by
   cases a with
   | arrive i => exact inv_step_arrive cfg s i hi
+  | join i => exact inv_step_join cfg s i hi
   | refuse i => exact inv_step_refuse cfg s i hi
   | resolve f sch a1 a2 => exact inv_step_resolve cfg hcfg s f sch a1 a2 hi
   | wake i => exact inv_step_wake cfg s i hi
   | evict k => exact inv_step_evict cfg s k hi
+  | refresh i sch a1 a2 => exact inv_step_refresh cfg hcfg s i sch a1 a2 hi
 
 theorem inv_run (cfg : Cfg) (hcfg : cfg.checkQuestion = true) (as : List Act) :
     ∀ s, Inv s → Inv (run cfg s as) := by
